@@ -47,7 +47,10 @@ type c08In struct {
 }
 
 type c08Obs struct {
-	Prog  int    `json:"prog"`
+	Prog int `json:"prog"`
+	// Out: the outcome itself when it is an error list of modest size (lets the driver
+	// name the differing message), else empty.
+	Out   string `json:"out,omitempty"`
 	Hash  string `json:"hash"`
 	PID   int    `json:"pid"`
 	Procs int    `json:"procs"`
@@ -193,7 +196,11 @@ func execC08(c run.Case) (res run.Result) {
 		res.CrashSkipped = "panic-during-compile"
 	}
 	h := sha256.Sum256([]byte(kind + "\x00" + first))
-	obs, _ := json.Marshal(c08Obs{Prog: in.Prog, Hash: hex.EncodeToString(h[:12]), PID: os.Getpid(), Procs: procs, Kind: kind})
+	o := c08Obs{Prog: in.Prog, Hash: hex.EncodeToString(h[:12]), PID: os.Getpid(), Procs: procs, Kind: kind}
+	if kind == "error" && len(first) < 4000 {
+		o.Out = first
+	}
+	obs, _ := json.Marshal(o)
 	res.Obs = obs
 	res.Nontrivial = nobj >= 3 || nerr >= 2
 	res.Digest = fmt.Sprintf("%x", sha256.Sum256([]byte(in.Text+fmt.Sprint(in.Files))))[:16]
@@ -201,9 +208,42 @@ func execC08(c run.Case) (res run.Result) {
 	return
 }
 
-// c08DiffClass names what differs between two outcomes without quoting the input.
+// c08DiffClass names what differs between two outcomes without quoting the input: for
+// error lists the class of the first differing message (leading lower-case words), for
+// graphs whether lines are permuted or changed.
 func c08DiffClass(a, b string) string {
 	la, lb := strings.Split(a, "\n"), strings.Split(b, "\n")
+	for i := 0; i < len(la) && i < len(lb); i++ {
+		if la[i] != lb[i] {
+			if parts := strings.SplitN(la[i], "\t", 2); len(parts) == 2 && strings.Contains(parts[0], ",") {
+				msg := parts[1]
+				if j := strings.Index(msg, ": "); j >= 0 {
+					msg = msg[j+2:]
+				}
+				var words []string
+				for _, w := range strings.Fields(msg) {
+					ok := w != ""
+					for _, ch := range w {
+						if !(ch >= 'a' && ch <= 'z' || ch == '-') {
+							ok = false
+						}
+					}
+					if !ok {
+						break
+					}
+					words = append(words, w)
+					if len(words) == 5 {
+						break
+					}
+				}
+				if len(words) > 0 {
+					return "error-message:" + strings.Join(words, "-")
+				}
+				return "error-message:other"
+			}
+			break
+		}
+	}
 	if len(la) != len(lb) {
 		return "different-length"
 	}
@@ -254,7 +294,11 @@ func postC08(d *run.Driver, results []run.Result) {
 		}
 		for _, o := range os[1:] {
 			if o.Hash != os[0].Hash || o.Kind != os[0].Kind {
-				d.ReportViolation(run.Case{ID: ids[p]}, run.Violation{Clause: "C08.cross-process", Sig: "C08.cross-process:" + os[0].Kind + "-vs-" + o.Kind,
+				cls := "hash"
+				if os[0].Out != "" && o.Out != "" {
+					cls = c08DiffClass(os[0].Out, o.Out)
+				}
+				d.ReportViolation(run.Case{ID: ids[p]}, run.Violation{Clause: "C08.cross-process", Sig: "C08.cross-process:" + os[0].Kind + "-vs-" + o.Kind + ":" + cls,
 					Msg: fmt.Sprintf("program %d: outcome hash %s (pid %d, GOMAXPROCS %d) differs from %s (pid %d, GOMAXPROCS %d); replay any of the cases k*-p%06d", p, os[0].Hash, os[0].PID, os[0].Procs, o.Hash, o.PID, o.Procs, p)})
 				break
 			}
